@@ -49,7 +49,6 @@ var firstObservers = []struct {
 	{"Quantile(1)", func(d *dataset.Dataset) float64 { return d.Quantile(1) }, func(xs []float64) float64 { return xs[len(xs)-1] }},
 }
 
-
 func observeDataset(d *dataset.Dataset, n int) string {
 	b := make([]byte, 0, 256)
 	b = append(b, "count="...)
